@@ -39,6 +39,9 @@ pub struct Cfg {
     pub huge_blocks: bool,
     /// response data is sometimes 127 / 128 / 129 bytes long (the protobuf length prefix becomes two bytes at 128)
     pub big_data: bool,
+    /// every third contract of the setup is its OWN admin, and a program running at such a contract often returns
+    /// a Migrate of itself as a sub-message (the dispatcher's code changes while its own sub-messages are processed)
+    pub self_admin: bool,
 }
 impl Default for Cfg {
     fn default() -> Self {
@@ -60,6 +63,7 @@ impl Default for Cfg {
             migrate_bias: false,
             huge_blocks: false,
             big_data: false,
+            self_admin: false,
             wrapped_codes: false,
         }
     }
@@ -75,6 +79,9 @@ pub struct G<'a> {
     pub denoms: Vec<String>,
     pub budget: usize,
     pub n_registered_guess: u64,
+    /// the contract the program being generated will run at (when known), and the contracts that are their own admin
+    pub cur: Option<String>,
+    pub own_admins: Vec<String>,
 }
 
 pub fn default_codes() -> Vec<CodeS> {
@@ -123,6 +130,8 @@ impl<'a> G<'a> {
             denoms: vec!["uatom".into(), "btc".into()],
             budget: 0,
             n_registered_guess: 0,
+            cur: None,
+            own_admins: vec![],
         }
     }
     fn node(&mut self) -> u64 {
@@ -318,11 +327,25 @@ impl<'a> G<'a> {
         }
     }
     pub fn msg(&mut self, depth: usize) -> Msg {
+        if self.cfg.self_admin && depth > 1 {
+            if let Some(c) = self.cur.clone() {
+                if self.own_admins.contains(&c) && self.rng.chance(1, 4) {
+                    let with_migrate: Vec<u64> = self.codes.iter().filter(|c| c.has_migrate && c.has_reply).map(|c| c.id).collect();
+                    let new_code = *self.rng.pick(&with_migrate);
+                    let saved = self.cur.take();
+                    let p = self.prog(depth, false);
+                    self.cur = saved;
+                    return Msg::Migrate { c, new_code, p };
+                }
+            }
+        }
         let c = self.rng.below(100);
         if c < 45 {
             let funds = if self.cfg.funds && self.rng.chance(1, 3) { self.coins(6) } else { vec![] };
             let ct = self.some_contract();
+            let saved = self.cur.replace(ct.clone());
             let mut p = self.prog(depth, true);
+            self.cur = saved;
             if self.cfg.probe_funds && !funds.is_empty() {
                 p.acts.insert(1, Action::Q(QAct::Balance(ct.clone(), funds[0].denom.clone())));
             }
@@ -427,7 +450,15 @@ impl<'a> G<'a> {
                 acts: vec![Action::Write(format!("m{}", node).into_bytes(), vec![1]), Action::Write(b"a".to_vec(), vec![i as u8 + 1])],
                 out: Output::Resp { attrs: vec![], events: vec![], data: None, subs: vec![] },
             };
-            let admin = if i % 2 == 0 { Some(self.users[0].clone()) } else { None };
+            let admin = if self.cfg.self_admin && i % 3 == 2 {
+                let a = classic_address(code.id, i as u64);
+                self.own_admins.push(a.clone());
+                Some(a)
+            } else if i % 2 == 0 {
+                Some(self.users[0].clone())
+            } else {
+                None
+            };
             let funds = vec![CoinS { denom: "uatom".into(), amount: 10 }];
             steps.push(Step {
                 block: b.clone(),
